@@ -27,6 +27,17 @@ func c13Conf() srv.Conf {
 	return c
 }
 
+// c13ConfFor: every second child process runs its server with RTSP Digest authentication on, so that
+// Authorization headers are actually parsed (one server per child; a child handles the cases of one
+// residue class modulo 16).
+func c13ConfFor(i int) srv.Conf {
+	c := c13Conf()
+	if (i%16)%2 == 1 {
+		c.RtspAuthEnable, c.RtspAuthMethod, c.RtspUser, c.RtspPass = true, 1, "verif", "pa:ss"
+	}
+	return c
+}
+
 // tcpScript sends data, half-closes and drains (like hostileConn) against any TCP address.
 func tcpScript(addr string, data []byte) error {
 	_, err := hostileConn(addr, data, 0, nil)
@@ -335,6 +346,24 @@ func c13Inputs(c *fw.Ctx, i int, s *srv.Server, bgName string) []c13Input {
 					b = append(b, rtspReq(m, uri, k+1, hs, body)...)
 				}
 				addTcp("rtsp/transport-cut/"+strings.Join(seq, ","), s.RtspAddr(), b)
+			}
+		}
+		// Authorization headers cut at every offset (inside keys, quoted values, the base64 blob), on
+		// DESCRIBE and ANNOUNCE; they are parsed when the server runs with authentication on
+		for _, full := range []string{`Digest username="verif", realm="lal", nonce="0123456789abcdef", uri="rtsp://127.0.0.1/live/x", response="00112233445566778899aabbccddeeff", algorithm="MD5"`,
+			"Basic dmVyaWY6cGE6c3M=", `Digest username=verif, realm=, nonce="`, `Digest ="", ""=", ,,`} {
+			for n := 0; n <= len(full); n++ {
+				for _, m := range []string{"DESCRIBE", "ANNOUNCE"} {
+					if m == "ANNOUNCE" && n%4 != 0 {
+						continue
+					}
+					var body []byte
+					hs := []string{"Authorization: " + full[:n]}
+					if m == "ANNOUNCE" {
+						hs, body = append(hs, "Content-Type: application/sdp"), goodSdp(r)
+					}
+					addTcp("rtsp/authorization-cut/"+m, s.RtspAddr(), rtspReq(m, url(bgName), 2, hs, body))
+				}
 			}
 		}
 		for _, seq := range [][]string{{"SETUP"}, {"PLAY"}, {"RECORD"}, {"TEARDOWN"}, {"DESCRIBE", "DESCRIBE"}, {"ANNOUNCE", "ANNOUNCE"}, {"ANNOUNCE", "DESCRIBE"}, {"DESCRIBE", "ANNOUNCE", "SETUP", "PLAY", "RECORD"}, {"DESCRIBE", "PLAY"}, {"DESCRIBE", "SETUP", "SETUP", "PLAY", "PLAY"},
@@ -745,12 +774,12 @@ func init() {
 			return 64
 		},
 		CaseTimeout: func(string) time.Duration { return 10 * time.Minute },
-		Rule: "sub-inputs per surface against the whole in-process server: RTSP command connection (ANNOUNCE with ≈250 mutated SDP bodies — clock rates 0/1/999/2^31, removed/duplicated lines, truncations, broken sprop/config/fmtp —, interleaved `$` frames with hostile RTP/RTCP bodies on every channel before/after SETUP/RECORD and from players, method sequences out of order with 14 Transport header variants, three Transport headers cut at every offset, request lines × URIs × header oddities, raw bytes), UDP datagrams (RTP with padding/CSRC/extension/STAP/FU/AU-header extremes, truncated at every offset, RTCP SR truncated at every offset) to the RTP/RTCP ports of live UDP pub and sub sessions, GB28181 PS bodies (valid PS truncated/bit-mutated, every start code with short tails) over UDP and TCP framing, HTTP requests to the FLV/TS/HLS listener (path × Upgrade × version oddities) and every HTTP-API endpoint with malformed/typed-wrong JSON, WebSocket-RTSP / WebSocket-FLV frames (64-bit lengths, masks, opcodes, truncated handshakes), and scripted upstream replies while lal is RTMP pull / RTSP pull / HTTP-FLV pull client. " +
+		Rule: "sub-inputs per surface against the whole in-process server: RTSP command connection (ANNOUNCE with ≈250 mutated SDP bodies — clock rates 0/1/999/2^31, removed/duplicated lines, truncations, broken sprop/config/fmtp —, interleaved `$` frames with hostile RTP/RTCP bodies on every channel before/after SETUP/RECORD and from players, method sequences out of order with 14 Transport header variants, three Transport headers cut at every offset, Authorization headers cut at every offset (half of the child processes run the server with RTSP Digest authentication on), request lines × URIs × header oddities, raw bytes), UDP datagrams (RTP with padding/CSRC/extension/STAP/FU/AU-header extremes, truncated at every offset, RTCP SR truncated at every offset) to the RTP/RTCP ports of live UDP pub and sub sessions, GB28181 PS bodies (valid PS truncated/bit-mutated, every start code with short tails) over UDP and TCP framing, HTTP requests to the FLV/TS/HLS listener (path × Upgrade × version oddities) and every HTTP-API endpoint with malformed/typed-wrong JSON, WebSocket-RTSP / WebSocket-FLV frames (64-bit lengths, masks, opcodes, truncated handshakes), and scripted upstream replies while lal is RTMP pull / RTSP pull / HTTP-FLV pull client. " +
 			"monitors: process liveness (crash signature + resumption after the crashing input) and a canary (RTMP publish+play and an RTSP DESCRIBE of a background stream) after every group. cell = surface/input class.",
 		Assumptions: []string{"an error reply, a closed session or a kept-open session are all fine; only process death / failing canary is judged"},
 		MinCells: 12,
 		Run: func(c *fw.Ctx, i int) {
-			s := crashServer(c, c13Conf())
+			s := crashServer(c, c13ConfFor(i))
 			if s == nil {
 				return
 			}
